@@ -17,6 +17,10 @@ static bool nulfree(const std::string& s) { return s.find('\0') == std::string::
 
 static void pair_event(Out& out, const std::string& s, const std::string& t) {
     using sv = tlx::string_view;
+    // every string_view argument is a view into a LARGER buffer: the bytes behind the view's end are not a terminator but more text (the other string, letters,
+    // separators), so a helper that reads its view argument as a C string or past its size gives a different answer
+    const std::string s_pad = s + t + "a,B \x01a", t_pad = t + s + "b, a\xff,";
+    auto NTV = [&](const std::string& x) { return &x == &s ? sv(s_pad.data(), s.size()) : sv(t_pad.data(), t.size()); };
     Ev e("str"); e.raw("s", B(s)).raw("t", B(t));
     { std::string o = "[";
       for (size_t w : {0, 4, 8, 76}) { std::string enc = tlx::base64_encode(s, w);
@@ -25,66 +29,66 @@ static void pair_event(Out& out, const std::string& s, const std::string& t) {
       e.raw("b64", o + "]"); }
     std::string hu = tlx::hexdump(s), hl = tlx::hexdump_lc(s);
     e.raw("hex_u", B(hu)).raw("hex_l", B(hl)).raw("parse_u", tryS([&] { return tlx::parse_hexdump(hu); })).raw("parse_l", tryS([&] { return tlx::parse_hexdump(hl); }));
-    { L a, b; a.add(B(tlx::to_lower(sv(s)))); { std::string c = s; a.add(B(tlx::to_lower(&c))); } b.add(B(tlx::to_upper(sv(s)))); { std::string c = s; b.add(B(tlx::to_upper(&c))); }
+    { L a, b; a.add(B(tlx::to_lower(NTV(s)))); { std::string c = s; a.add(B(tlx::to_lower(&c))); } b.add(B(tlx::to_upper(NTV(s)))); { std::string c = s; b.add(B(tlx::to_upper(&c))); }
       e.raw("to_lower", a.done()).raw("to_upper", b.done()); }
     auto trio = [&](const char* n1, const char* n2, const char* n3, auto drop, bool has_drop) {
         L a, b, c;
         auto v = [&](sv x) { return B(std::string(x.data(), x.size())); };
         if (has_drop) {
-            { std::string x = s; a.add(B(tlx::trim(&x, drop))); } a.add(v(tlx::trim(sv(s), drop))); { sv x(s); a.add(v(tlx::trim(&x, drop))); }
-            { std::string x = s; b.add(B(tlx::trim_left(&x, drop))); } b.add(v(tlx::trim_left(sv(s), drop))); { sv x(s); b.add(v(tlx::trim_left(&x, drop))); }
-            { std::string x = s; c.add(B(tlx::trim_right(&x, drop))); } c.add(v(tlx::trim_right(sv(s), drop))); { sv x(s); c.add(v(tlx::trim_right(&x, drop))); }
+            { std::string x = s; a.add(B(tlx::trim(&x, drop))); } a.add(v(tlx::trim(NTV(s), drop))); { sv x(s); a.add(v(tlx::trim(&x, drop))); }
+            { std::string x = s; b.add(B(tlx::trim_left(&x, drop))); } b.add(v(tlx::trim_left(NTV(s), drop))); { sv x(s); b.add(v(tlx::trim_left(&x, drop))); }
+            { std::string x = s; c.add(B(tlx::trim_right(&x, drop))); } c.add(v(tlx::trim_right(NTV(s), drop))); { sv x(s); c.add(v(tlx::trim_right(&x, drop))); }
         }
         e.raw(n1, a.done()).raw(n2, b.done()).raw(n3, c.done());
     };
-    trio("trim", "trim_left", "trim_right", sv(t), true);
+    trio("trim", "trim_left", "trim_right", NTV(t), true);
     { L a, b, c; auto v = [&](sv x) { return B(std::string(x.data(), x.size())); };
-      { std::string x = s; a.add(B(tlx::trim(&x))); } a.add(v(tlx::trim(sv(s)))); { std::string x = s; b.add(B(tlx::trim_left(&x))); } b.add(v(tlx::trim_left(sv(s))));
-      { std::string x = s; c.add(B(tlx::trim_right(&x))); } c.add(v(tlx::trim_right(sv(s))));
+      { std::string x = s; a.add(B(tlx::trim(&x))); } a.add(v(tlx::trim(NTV(s)))); { std::string x = s; b.add(B(tlx::trim_left(&x))); } b.add(v(tlx::trim_left(NTV(s))));
+      { std::string x = s; c.add(B(tlx::trim_right(&x))); } c.add(v(tlx::trim_right(NTV(s))));
       e.raw("trim_ws", a.done()).raw("trim_left_ws", b.done()).raw("trim_right_ws", c.done()); }
-    { L a; a.add(B(tlx::erase_all(sv(s), sv(t)))); { std::string x = s; a.add(B(tlx::erase_all(&x, sv(t)))); } e.raw("erase_all", a.done()); }
+    { L a; a.add(B(tlx::erase_all(NTV(s), NTV(t)))); { std::string x = s; a.add(B(tlx::erase_all(&x, NTV(t)))); } e.raw("erase_all", a.done()); }
     { L a, b, c;
-      if (!t.empty()) { a.add(B(tlx::replace_first(sv(s), sv(t), sv("XY")))); { std::string x = s; a.add(B(tlx::replace_first(&x, sv(t), sv("XY")))); }
-                        b.add(B(tlx::replace_all(sv(s), sv(t), sv("XY")))); { std::string x = s; b.add(B(tlx::replace_all(&x, sv(t), sv("XY")))); }
-                        c.add(B(tlx::replace_all(sv(s), sv(t), sv("")))); }
+      if (!t.empty()) { a.add(B(tlx::replace_first(NTV(s), NTV(t), sv("XY")))); { std::string x = s; a.add(B(tlx::replace_first(&x, NTV(t), sv("XY")))); }
+                        b.add(B(tlx::replace_all(NTV(s), NTV(t), sv("XY")))); { std::string x = s; b.add(B(tlx::replace_all(&x, NTV(t), sv("XY")))); }
+                        c.add(B(tlx::replace_all(NTV(s), NTV(t), sv("")))); }
       e.raw("replace_first", a.done()).raw("replace_all", b.done()).raw("replace_all_del", c.done()); }
     { L a, b, c, d; std::string spl = "["; bool cc = false;
       if (t.size() == 1) { char ch = t[0];
-          { std::string x = s; a.add(B(tlx::trim(&x, ch))); } a.add(B(std::string(tlx::trim(sv(s), ch))));
-          b.add(B(tlx::erase_all(sv(s), ch))); { std::string x = s; b.add(B(tlx::erase_all(&x, ch))); }
-          c.add(B(tlx::replace_first(sv(s), ch, 'X'))); { std::string x = s; c.add(B(tlx::replace_first(&x, ch, 'X'))); }
-          d.add(B(tlx::replace_all(sv(s), ch, 'X'))); { std::string x = s; d.add(B(tlx::replace_all(&x, ch, 'X'))); }
-          cc = tlx::contains(sv(s), ch);
+          { std::string x = s; a.add(B(tlx::trim(&x, ch))); } a.add(B(std::string(tlx::trim(NTV(s), ch))));
+          b.add(B(tlx::erase_all(NTV(s), ch))); { std::string x = s; b.add(B(tlx::erase_all(&x, ch))); }
+          c.add(B(tlx::replace_first(NTV(s), ch, 'X'))); { std::string x = s; c.add(B(tlx::replace_first(&x, ch, 'X'))); }
+          d.add(B(tlx::replace_all(NTV(s), ch, 'X'))); { std::string x = s; d.add(B(tlx::replace_all(&x, ch, 'X'))); }
+          cc = tlx::contains(NTV(s), ch);
           for (long long lim : {-1LL, 0LL, 1LL, 2LL, 3LL}) spl += std::string(spl.size() > 1 ? "," : "") + "{\"limit\":" + std::to_string(lim) + ",\"parts\":" +
-              BV(tlx::split(ch, sv(s), lim < 0 ? std::string::npos : (size_t)lim)) + "}";
-          for (long long lim : {-1LL, 2LL}) { std::vector<std::string> vv; for (auto x : tlx::split_view(ch, sv(s), lim < 0 ? std::string::npos : (size_t)lim)) vv.emplace_back(x.data(), x.size());
+              BV(tlx::split(ch, NTV(s), lim < 0 ? std::string::npos : (size_t)lim)) + "}";
+          for (long long lim : {-1LL, 2LL}) { std::vector<std::string> vv; for (auto x : tlx::split_view(ch, NTV(s), lim < 0 ? std::string::npos : (size_t)lim)) vv.emplace_back(x.data(), x.size());
               spl += ",{\"limit\":" + std::to_string(lim) + ",\"parts\":" + BV(vv) + "}"; } }
       e.raw("trim_c", a.done()).raw("erase_c", b.done()).raw("replace_first_c", c.done()).raw("replace_all_c", d.done()).boolean("contains_c", cc).raw("split_c", spl + "]"); }
     { L a, b, c, d;
-      a.add(Bo(tlx::starts_with(sv(s), sv(t)))); b.add(Bo(tlx::ends_with(sv(s), sv(t)))); c.add(Bo(tlx::starts_with_icase(sv(s), sv(t)))); d.add(Bo(tlx::ends_with_icase(sv(s), sv(t))));
-      if (nulfree(s) && nulfree(t)) { b.add(Bo(tlx::ends_with(s.c_str(), t.c_str()))); b.add(Bo(tlx::ends_with(s.c_str(), sv(t)))); b.add(Bo(tlx::ends_with(sv(s), t.c_str())));
-                                      d.add(Bo(tlx::ends_with_icase(s.c_str(), t.c_str()))); d.add(Bo(tlx::ends_with_icase(sv(s), t.c_str()))); }
-      e.raw("starts", a.done()).raw("ends", b.done()).boolean("contains", tlx::contains(sv(s), sv(t))).raw("starts_icase", c.done()).raw("ends_icase", d.done()); }
+      a.add(Bo(tlx::starts_with(NTV(s), NTV(t)))); b.add(Bo(tlx::ends_with(NTV(s), NTV(t)))); c.add(Bo(tlx::starts_with_icase(NTV(s), NTV(t)))); d.add(Bo(tlx::ends_with_icase(NTV(s), NTV(t))));
+      if (nulfree(s) && nulfree(t)) { b.add(Bo(tlx::ends_with(s.c_str(), t.c_str()))); b.add(Bo(tlx::ends_with(s.c_str(), NTV(t)))); b.add(Bo(tlx::ends_with(NTV(s), t.c_str())));
+                                      d.add(Bo(tlx::ends_with_icase(s.c_str(), t.c_str()))); d.add(Bo(tlx::ends_with_icase(NTV(s), t.c_str()))); }
+      e.raw("starts", a.done()).raw("ends", b.done()).boolean("contains", tlx::contains(NTV(s), NTV(t))).raw("starts_icase", c.done()).raw("ends_icase", d.done()); }
     { L a, b, c;
-      a.add(std::to_string(tlx::compare_icase(sv(s), sv(t)))); b.add(Bo(tlx::equal_icase(sv(s), sv(t)))); c.add(Bo(tlx::less_icase(sv(s), sv(t))));
+      a.add(std::to_string(tlx::compare_icase(NTV(s), NTV(t)))); b.add(Bo(tlx::equal_icase(NTV(s), NTV(t)))); c.add(Bo(tlx::less_icase(NTV(s), NTV(t))));
       if (nulfree(s) && nulfree(t)) {
-          a.add(std::to_string(tlx::compare_icase(s.c_str(), t.c_str()))); a.add(std::to_string(tlx::compare_icase(s.c_str(), sv(t)))); a.add(std::to_string(tlx::compare_icase(sv(s), t.c_str())));
-          b.add(Bo(tlx::equal_icase(s.c_str(), t.c_str()))); b.add(Bo(tlx::equal_icase(s.c_str(), sv(t)))); b.add(Bo(tlx::equal_icase(sv(s), t.c_str())));
-          c.add(Bo(tlx::less_icase(s.c_str(), t.c_str()))); c.add(Bo(tlx::less_icase(s.c_str(), sv(t)))); c.add(Bo(tlx::less_icase(sv(s), t.c_str()))); }
+          a.add(std::to_string(tlx::compare_icase(s.c_str(), t.c_str()))); a.add(std::to_string(tlx::compare_icase(s.c_str(), NTV(t)))); a.add(std::to_string(tlx::compare_icase(NTV(s), t.c_str())));
+          b.add(Bo(tlx::equal_icase(s.c_str(), t.c_str()))); b.add(Bo(tlx::equal_icase(s.c_str(), NTV(t)))); b.add(Bo(tlx::equal_icase(NTV(s), t.c_str())));
+          c.add(Bo(tlx::less_icase(s.c_str(), t.c_str()))); c.add(Bo(tlx::less_icase(s.c_str(), NTV(t)))); c.add(Bo(tlx::less_icase(NTV(s), t.c_str()))); }
       e.raw("compare_icase", a.done()).raw("equal_icase", b.done()).raw("less_icase", c.done()); }
-    { L a, b; a.add(std::to_string(tlx::levenshtein(sv(s), sv(t)))); b.add(std::to_string(tlx::levenshtein_icase(sv(s), sv(t))));
+    { L a, b; a.add(std::to_string(tlx::levenshtein(NTV(s), NTV(t)))); b.add(std::to_string(tlx::levenshtein_icase(NTV(s), NTV(t))));
       if (nulfree(s) && nulfree(t)) { a.add(std::to_string(tlx::levenshtein(s.c_str(), t.c_str()))); b.add(std::to_string(tlx::levenshtein_icase(s.c_str(), t.c_str()))); }
       e.raw("lev", a.done()).raw("lev_icase", b.done()); }
-    { std::string o = "["; for (size_t len : {(size_t)0, (size_t)1, s.size(), s.size() + 2}) o += std::string(o.size() > 1 ? "," : "") + "{\"len\":" + std::to_string(len) + ",\"r\":" + B(tlx::pad(sv(s), len, '.')) + "}";
+    { std::string o = "["; for (size_t len : {(size_t)0, (size_t)1, s.size(), s.size() + 2}) o += std::string(o.size() > 1 ? "," : "") + "{\"len\":" + std::to_string(len) + ",\"r\":" + B(tlx::pad(NTV(s), len, '.')) + "}";
       e.raw("pad", o + "]"); }
     { std::string o = "[", m = "[";
       for (long long lim : {-1LL, 0LL, 1LL, 2LL, 3LL}) { size_t l = lim < 0 ? std::string::npos : (size_t)lim;
-          std::vector<std::string> into; tlx::split(&into, sv(t), sv(s), l);
-          o += std::string(o.size() > 1 ? "," : "") + "{\"limit\":" + std::to_string(lim) + ",\"parts\":" + BV(tlx::split(sv(t), sv(s), l)) + "}";
+          std::vector<std::string> into; tlx::split(&into, NTV(t), NTV(s), l);
+          o += std::string(o.size() > 1 ? "," : "") + "{\"limit\":" + std::to_string(lim) + ",\"parts\":" + BV(tlx::split(NTV(t), NTV(s), l)) + "}";
           o += ",{\"limit\":" + std::to_string(lim) + ",\"parts\":" + BV(into) + "}";
-          { std::vector<std::string> vv; for (auto x : tlx::split_view(sv(t), sv(s), l)) vv.emplace_back(x.data(), x.size());
+          { std::vector<std::string> vv; for (auto x : tlx::split_view(NTV(t), NTV(s), l)) vv.emplace_back(x.data(), x.size());
             o += ",{\"limit\":" + std::to_string(lim) + ",\"parts\":" + BV(vv) + "}"; }
-          for (size_t mf : {(size_t)0, (size_t)2, (size_t)4}) m += std::string(m.size() > 1 ? "," : "") + "{\"minf\":" + std::to_string(mf) + ",\"limit\":" + std::to_string(lim) + ",\"parts\":" + BV(tlx::split(sv(t), sv(s), mf, l)) + "}"; }
+          for (size_t mf : {(size_t)0, (size_t)2, (size_t)4}) m += std::string(m.size() > 1 ? "," : "") + "{\"minf\":" + std::to_string(mf) + ",\"limit\":" + std::to_string(lim) + ",\"parts\":" + BV(tlx::split(NTV(t), NTV(s), mf, l)) + "}"; }
       e.raw("split_s", o + "]").raw("split_min", m + "]"); }
     e.emit(out);
 }
